@@ -406,6 +406,13 @@ def replay_file(path):
     return 1
 
 
+def mirror_right(full, nyh):
+    """right half of a full-span mesh, mirrored about y = 0 and re-ordered tip -> root like the left half"""
+    out = np.array(full[:, nyh - 1:, :][:, ::-1, :], dtype=full.dtype)
+    out[:, :, 1] = -out[:, :, 1]
+    return out
+
+
 def geometry_half_full(rep, tier, timeout):
     """Geometry design variables: the transformation of the modelled half (symmetry=True) equals the left half of the same
     transformation applied to the mirror-symmetric full-span mesh (symmetry=False) with mirror-symmetric design variables."""
@@ -446,11 +453,16 @@ def geometry_half_full(rep, tier, timeout):
             oh = a.sym1(dict(dvh, in_mesh=m), assumptions=assume)["mesh"]
             of = b.sym1(dict(dvf, in_mesh=mf), assumptions=assume)["mesh"]
             obs = idents("mesh", oh, of[:, :nyh, :], assume=assume, meta={"family": "%s: the transformed half mesh is the left half of the transformed full-span mesh" % cls})
+            # ... and the other half of the full-span model is its mirror image (the half model stands for both halves)
+            obs += idents("mesh", oh, mirror_right(of, nyh), assume=assume,
+                          meta={"family": "%s: the right half of the transformed full-span mesh is the mirror image of the transformed half mesh" % cls, "right": True})
 
             def rp(ob, env, a=a, b=b, dvh=dvh, dvf=dvf):
                 envf = model.FillEnv(env)
                 rh = a.real(num_inputs(dict(dvh, in_mesh=m), envf))["mesh"]
                 rf = b.real(num_inputs(dict(dvf, in_mesh=mf), envf))["mesh"]
+                if ob.meta.get("right"):
+                    rf = mirror_right(rf, rh.shape[1])
                 idx = tuple(ob.meta["idx"])
                 return model.differs(rh[idx], rf[idx], 1e-7), "%s: half model mesh%s = %.9g, full model %.9g" % (a.cls, list(idx), rh[idx], rf[idx])
 
@@ -473,6 +485,8 @@ def geometry_half_full(rep, tier, timeout):
         finally:
             a.comp.options["mesh"], b.comp.options["mesh"] = cmh, cmf
         obs = idents("mesh", oh, of[:, :nyh, :], assume=assume, meta={"family": "Taper: the transformed half mesh is the left half of the transformed full-span mesh"})
+        obs += idents("mesh", oh, mirror_right(of, nyh), assume=assume,
+                      meta={"family": "Taper: the right half of the transformed full-span mesh is the mirror image of the transformed half mesh", "right": True})
 
         def rpt(ob, env):
             envf = model.FillEnv(env)
@@ -480,6 +494,8 @@ def geometry_half_full(rep, tier, timeout):
             mfv = np.concatenate([mv, mv[:, :-1][:, ::-1] * np.array([1.0, -1.0, 1.0])], axis=1)
             rh = SymComp(G, "Taper", val=1.0, mesh=mv, symmetry=True, ref_axis_pos=0.25).real({"taper": [envf["taper"]]})["mesh"]
             rf = SymComp(G, "Taper", val=1.0, mesh=mfv, symmetry=False, ref_axis_pos=0.25).real({"taper": [envf["taper"]]})["mesh"]
+            if ob.meta.get("right"):
+                rf = mirror_right(rf, rh.shape[1])
             idx = tuple(ob.meta["idx"])
             return model.differs(rh[idx], rf[idx], 1e-7), "Taper: half model mesh%s = %.9g, full model %.9g" % (list(idx), rh[idx], rf[idx])
 
